@@ -5,6 +5,7 @@ cd "$(dirname "$0")"
 export CARGO_NET_OFFLINE=true
 mkdir -p build evidence
 python3 translator/regen.py all || echo "translator: regeneration failed (checks will report it)"
-( cd coq && coq_makefile -f _CoqProject -o Makefile >/dev/null 2>&1 && timeout 3000 make -j16 2>&1 | tail -5 )
+( cd coq && ./mkproject.sh && timeout 3000 make -j16 2>&1 | tail -5 )
+python3 -c "import sys; sys.path.insert(0,'lib'); import vlib; vlib.write_cargo_toml()"
 ( cd harness && RUSTFLAGS="--cfg oxidizepdf_verif -Awarnings" timeout 3000 cargo build --offline 2>&1 | tail -3 )
 exit 0
